@@ -352,3 +352,89 @@ func verifH_C14_convert_errors() {
 	}
 	verifReach("end")
 }
+
+//verif:harness id=C14 tier=quick,thorough witness=end bounds="the middleware with its default error and log callbacks (no OnErr / OnLog): router answer, request validity and strict mode by fork, handler = every call sequence of length <= 2 over {WriteHeader(200|404), Write(1 symbolic byte), Header().Set}: the handler runs iff route and request are fine; otherwise the client gets 404 / 400 and nothing of the handler; a strict invalid response is replaced by a 500 that contains none of the handler's bytes; everything else passes through"
+func verifH_C14_middleware_defaults() {
+	d := "d"
+	str := &openapi3.SchemaRef{Value: &openapi3.Schema{Type: &openapi3.Types{"string"}}}
+	resps := openapi3.NewResponsesWithCapacity(2)
+	resps.Set("200", &openapi3.ResponseRef{Value: &openapi3.Response{Description: &d, Headers: openapi3.Headers{
+		"X-Resp": &openapi3.HeaderRef{Value: &openapi3.Header{Parameter: openapi3.Parameter{Required: true, Schema: str}}}}}})
+	resps.Set("404", &openapi3.ResponseRef{Value: &openapi3.Response{Description: &d}})
+	op := &openapi3.Operation{Responses: resps, Parameters: openapi3.Parameters{{Value: &openapi3.Parameter{Name: "X-Req", In: "header", Required: true, Schema: str}}}}
+	route := &routers.Route{Spec: &openapi3.T{}, PathItem: &openapi3.PathItem{Get: op}, Operation: op, Method: "GET"}
+	found := verifChoose("route", 2) == 1
+	reqValid := verifChoose("reqValid", 2) == 1
+	strict := verifChoose("strict", 2) == 1
+	n := verifChoose("steps", 3)
+	steps := make([]verifStep, 0, n)
+	for i := 0; i < n; i++ {
+		st := verifStep{kind: verifChoose("step", 3)}
+		switch st.kind {
+		case 0:
+			st.status = []int{200, 404}[verifChoose("code", 2)]
+		case 1:
+			b := verifNondetByteIn("data", "hk") // bytes that do not occur in the library's own error texts
+			st.data = []byte{b}
+		}
+		steps = append(steps, st)
+	}
+	handlerCalls := 0
+	h := http.HandlerFunc(func(w http.ResponseWriter, r *http.Request) {
+		handlerCalls++
+		for _, st := range steps {
+			switch st.kind {
+			case 0:
+				w.WriteHeader(st.status)
+			case 1:
+				w.Write(st.data)
+			case 2:
+				w.Header().Set("X-Resp", "v")
+			}
+		}
+	})
+	v := NewValidator(&verifRouter{route: route, found: found}, Strict(strict))
+	rec := &verifRecorder{header: http.Header{}}
+	req := &http.Request{Method: "GET", Header: http.Header{}, URL: &url.URL{Path: "/"}}
+	if reqValid {
+		req.Header["X-Req"] = []string{"v"}
+	}
+	v.Middleware(h).ServeHTTP(rec, req.WithContext(context.Background()))
+
+	hStatus, hWrote, set := 200, false, false
+	var hBody []byte
+	for _, st := range steps {
+		switch st.kind {
+		case 0:
+			if !hWrote {
+				hWrote, hStatus = true, st.status
+			}
+		case 1:
+			hWrote = true
+			hBody = append(hBody, st.data...)
+		case 2:
+			set = true
+		}
+	}
+	switch {
+	case !found:
+		verifAssert(handlerCalls == 0 && rec.status == 404, "C14 defaults: no route => 404 from the middleware, handler never runs")
+	case !reqValid:
+		verifAssert(handlerCalls == 0 && rec.status == 400, "C14 defaults: invalid request => 400 from the middleware, handler never runs")
+	default:
+		verifAssert(handlerCalls == 1, "C14 defaults: route found and request valid => handler runs exactly once")
+		respValid := hStatus != 200 || set
+		if strict && !respValid {
+			verifAssert(rec.status == 500 && !bytes.Contains(rec.body, []byte("h")) && !bytes.Contains(rec.body, []byte("k")), "C14 defaults strict: an invalid response is replaced by a 500 without any of the handler's bytes")
+		} else if strict {
+			verifAssert(rec.status == hStatus && bytes.Equal(rec.body, hBody), "C14 defaults strict: a valid response reaches the client with the handler's status and body")
+		} else {
+			want := hStatus
+			if !hWrote {
+				want = 0
+			}
+			verifAssert(rec.status == want && bytes.Equal(rec.body, hBody), "C14 defaults non-strict: the handler's response passes through unchanged")
+		}
+	}
+	verifReach("end")
+}
